@@ -226,6 +226,50 @@ class ObjInterp(Interp):
             return self.builtin_obj(f[1], args, kwargs, env)
         return super().call(e, env)
 
+    def call_value(self, f, args):
+        """call a callable value (lambda, nested function, bound method, package function)"""
+        if isinstance(f, _Bound):
+            return self.call_func(f.func, list(args), {}, self_obj=f.self_obj)
+        if isinstance(f, ClsD):
+            return self.construct_inst(f, list(args), {})
+        if isinstance(f, tuple) and f:
+            if f[0] == "lambda":
+                _, lam, lenv = f
+                loc = dict(lenv)
+                for p_, v in zip([x.arg for x in lam.args.args], args):
+                    loc[p_] = v
+                return self.ev(lam.body, loc)
+            if f[0] == "closure":
+                return self.call_closure(f[1], f[2], list(args), {})
+            if f[0] == "func":
+                return self.call_func(f[1], list(args), {})
+            if f[0] == "builtin":
+                return self.builtin(f[1], list(args), {})
+        raise LexUnknown("call of a computed callable")
+
+    def external(self, name, args, kwargs):
+        if name in ("copy.deepcopy", "copy.copy"):
+            return copy.deepcopy(args[0]) if name.endswith("deepcopy") else copy.copy(args[0])
+        if name.startswith("logging.") or name.startswith("logger."):
+            return None
+        if name == "itertools.groupby":
+            items = self.iterate(args[0])
+            key = kwargs.get("key", args[1] if len(args) > 1 else None)
+            groups = []
+            for it in items:
+                k = self.call_value(key, [it]) if key is not None else it
+                if groups and deep_eq(groups[-1][0], k):
+                    groups[-1][1].append(it)
+                else:
+                    groups.append((k, [it]))
+            return [(k, list(v)) for k, v in groups]
+        if name in ("itertools.chain",):
+            out = []
+            for a in args:
+                out.extend(self.iterate(a))
+            return out
+        return super().external(name, args, kwargs)
+
     def builtin_obj(self, name, args, kwargs, env):
         if name == "super":
             inst = env.get("self")
@@ -379,6 +423,12 @@ class ObjInterp(Interp):
                     return ("func", f)
                 if f.is_classmethod:
                     return _Bound(f, o.cls)
+                decos = {ast.unparse(d).split(".")[-1] for d in f.node.decorator_list}
+                if decos & {"property", "cached_property"}:
+                    v = self.call_func(f, [], {}, self_obj=o)
+                    if "cached_property" in decos:
+                        o.attrs[name] = v        # computed once per object, as functools.cached_property does
+                    return v
                 return _Bound(f, o)
             ok, v = self.class_attr(o.cls, name)
             if ok:
@@ -470,12 +520,6 @@ class ObjInterp(Interp):
             return self.call_func(f, [], {}, self_obj=it)
         return super().iterate(it)
 
-    def external(self, name, args, kwargs):
-        if name in ("copy.deepcopy", "copy.copy"):
-            return copy.deepcopy(args[0]) if name.endswith("deepcopy") else copy.copy(args[0])
-        if name.startswith("logging.") or name.startswith("logger."):
-            return None
-        return super().external(name, args, kwargs)
 
 
 # ---------------------------------------------------------------------------
